@@ -176,6 +176,25 @@ func customOptsUnit() *Unit {
 	setRaw(in.P.Options, ".google.protobuf.MessageOptions", 7)
 	in.F("x", 1, S(Bytes))
 	tg.F("inner", 6, M(in.Full()))
+	// the documentation's idiom: a message that declares, in a nested extend
+	// block, the option whose type it is
+	opts := f.Msg("Opts")
+	opts.F("rank", 1, S(Int32))
+	opts.F("label", 2, S(String))
+	opts.P.Extension = append(opts.P.Extension,
+		&descriptorpb.FieldDescriptorProto{Name: proto.String("opts"), Number: proto.Int32(52900), Extendee: proto.String(".google.protobuf.FieldOptions"),
+			Label: descriptorpb.FieldDescriptorProto_LABEL_OPTIONAL.Enum(), Type: descriptorpb.FieldDescriptorProto_TYPE_MESSAGE.Enum(), TypeName: proto.String("." + opts.Full()), JsonName: proto.String("opts")},
+		&descriptorpb.FieldDescriptorProto{Name: proto.String("msg_opts"), Number: proto.Int32(51900), Extendee: proto.String(".google.protobuf.MessageOptions"),
+			Label: descriptorpb.FieldDescriptorProto_LABEL_REPEATED.Enum(), Type: descriptorpb.FieldDescriptorProto_TYPE_MESSAGE.Enum(), TypeName: proto.String("." + opts.Full()), JsonName: proto.String("msgOpts")})
+	uo := f.Msg("UsesOpts")
+	ufd := uo.F("ranked", 1, S(String))
+	ufd.Options = &descriptorpb.FieldOptions{}
+	{
+		var ob []byte
+		ob = protowire.AppendVarint(protowire.AppendTag(ob, 1, protowire.VarintType), 3)
+		ob = protowire.AppendString(protowire.AppendTag(ob, 2, protowire.BytesType), "third")
+		ufd.Options.ProtoReflect().SetUnknown(protowire.AppendBytes(protowire.AppendTag(nil, 52900, protowire.BytesType), ob))
+	}
 	plain := f.Msg("Plain") // a message without options next to ones with
 	plain.F("t", 1, M(tg.Full()))
 
